@@ -41,7 +41,7 @@ import pyref as R  # noqa: E402
 
 INTERNAL_SKS = (3, 11, R.b2i(hashlib.sha256(b"C06/internal/1").digest()) % R.N_ORDER)   # 11: odd-Y point (negated in the seckey tweak)
 PREFIXES = ((None, "bcrt"), ("--addrprefix=tb", "tb"), ("-pbc", "bc"), ("--addrprefix=bcrt", "bcrt"))
-SWEEP_PATTERNS = ("distinct", "equal", "alt", "spelled")   # spelled: leaves given as bracketed text with an inline function (same bytes as their hex form)
+SWEEP_PATTERNS = ("distinct", "equal", "alt", "spelled", "emptyleaf")   # spelled: leaves given as bracketed text with an inline function (same bytes as their hex form); emptyleaf: leaf 0 is the empty script
 RT_PATTERNS = ("csig", "csigarg")             # leaves <pk_i> OP_CHECKSIG  /  OP_DROP <pk_i> OP_CHECKSIG with one spend argument
 PLACEHOLDER = bytes(range(16)) * 4
 SPEND_ARG = "0x2a"
@@ -100,6 +100,8 @@ def _prog20(i):
 
 def spelling_for(pattern, i, script):
     """how leaf i is written on tap's command line"""
+    if pattern == "emptyleaf" and not script:
+        return "0x"
     if pattern == "spelled":
         # a version-0 segwit address of the 20-byte value (odd leaves) / its plain hex in brackets (even leaves)
         if i & 1:
@@ -117,6 +119,8 @@ def scripts_for(pattern, n):
         return list(_alt_list(1024 + 2)[:n])
     if pattern == "spelled":
         return [bytes([20]) + _prog20(i) + bytes([0x6D, 0x51]) for i in range(n)]     # <20 bytes> OP_2DROP OP_1
+    if pattern == "emptyleaf":
+        return [b""] + [_s(i, 0x2000) for i in range(1, n)]       # the empty script is a legal leaf: it leaves the signature item as the (true) result
     if pattern == "csig":
         return [b"\x20" + leaf_pk(i) + b"\xac" for i in range(n)]
     if pattern == "csigarg":
@@ -130,9 +134,9 @@ def make_jobs(tier):
     for ki in range(len(INTERNAL_SKS)):
         for pi in range(len(PREFIXES)):
             for pat in SWEEP_PATTERNS:
-                for n in range(1, (min(b["N"], 8 if tier == "quick" else 16) if pat == "spelled" else b["N"]) + 1):
+                for n in range(1, (min(b["N"], 8 if tier == "quick" else 16) if pat in ("spelled", "emptyleaf") else b["N"]) + 1):
                     jobs.append(dict(ki=ki, pattern=pat, n=n, pi=pi, indices=list(range(n))))
-                for n in (() if pat == "spelled" else b["big"]):
+                for n in (() if pat in ("spelled", "emptyleaf") else b["big"]):
                     jobs.append(dict(ki=ki, pattern=pat, n=n, pi=pi, indices=big_indices(n)))
             for pat in RT_PATTERNS:
                 for n in b["rt"]:
@@ -488,7 +492,7 @@ class Group:
             else:
                 self.v("btcdeb-unexpected:n=%d:index=%d" % (n, i), "placeholder-signed spend: expected commitment success then signature failure, got %s" % cls, i, cmd_str(cmdb))
         else:
-            if cls == "ok:01":
+            if cls == ("ok:" + PLACEHOLDER.hex()[:40] if not self.scripts[i] else "ok:01"):
                 deb_ok = True
             else:
                 self.v("btcdeb-script-fails:n=%d:index=%d" % (n, i), "commitment passed but the run does not end with a single 01: %s" % cls, i, cmd_str(cmdb) + " stdout: " + pb.out[-200:])
